@@ -144,7 +144,7 @@ def collect(tier, seed):
                 out["support"].setdefault(name, {})[lang] = bad
                 excl[(name, lang)] = sorted(bad)
         out["t_probe"] = time.time() - t0
-        work = common.CACHE / "lang-harness"
+        work = common.CACHE / ("lang-harness" if tier == "quick" else f"lang-harness-{tier}")
         handles, reports, errors = {}, {}, {}
 
         def hmods(lang):
